@@ -58,10 +58,9 @@ structure AState where
   border : Byte := 0
   /-- border colour the ULA paints -/
   borderShown : Byte := 0
-  /-- RAM page n as the CPU reads it -/
+  /-- RAM page n — as the CPU reads it and, for the displayable pages 5 and 7, as the display
+  reads it: in the described machine the display has no memory of its own -/
   page : Nat → Bytes := fun _ => []
-  /-- RAM page n as the display reads it (pages 5 and 7 only) -/
-  shown : Nat → Bytes := fun _ => []
   ayPresent : Bool := false
   ayRegs : Bytes := List.replicate 16 0
   aySel : Nat := 0
@@ -86,10 +85,8 @@ def shownPagesOf : Kind → List Nat
 
 def setPage (p : Nat → Bytes) (n : Nat) (d : Bytes) : Nat → Bytes := fun k => if k = n then d else p k
 
-/-- the display follows RAM -/
 def AState.withPage (a : AState) (n : Nat) (d : Bytes) : AState :=
-  { a with page := setPage a.page n d,
-           shown := if n ∈ shownPagesOf a.model then setPage a.shown n d else a.shown }
+  { a with page := setPage a.page n d }
 
 /-- page the CPU sees in the 16K block `blk` = 1,2,3 -/
 def AState.pageAt (a : AState) (blk : Nat) : Nat :=
@@ -224,9 +221,15 @@ def parseChunks : Nat → Bytes → Option (List Chunk)
     | none => none
     | some cs => some ({ id := f.take 4, data := (f.drop 8).take size } :: cs)
 
-def isId (c : Chunk) (s : String) : Bool := c.id = s.toUTF8.toList.map (fun b => BitVec.ofNat 8 b.toNat)
-
-def idAY : Bytes := [0x41, 0x59, 0, 0]
+/-- chunk ids (four ASCII characters) -/
+def kZ80R : Bytes := [0x5A, 0x38, 0x30, 0x52]
+def kSPCR : Bytes := [0x53, 0x50, 0x43, 0x52]
+def kAY : Bytes := [0x41, 0x59, 0, 0]
+def kKEYB : Bytes := [0x4B, 0x45, 0x59, 0x42]
+def kAMXM : Bytes := [0x41, 0x4D, 0x58, 0x4D]
+def kRAMP : Bytes := [0x52, 0x41, 0x4D, 0x50]
+def kCRTR : Bytes := [0x43, 0x52, 0x54, 0x52]
+def knownIds : List Bytes := [kZ80R, kSPCR, kAY, kKEYB, kAMXM, kRAMP, kCRTR]
 
 /-- ZXSTZ80REGS: AF BC DE HL AF' BC' DE' HL' IX IY SP PC I R IFF1 IFF2 IM dwCyclesStart(4)
 chHoldIntReqCycles chFlags wMemPtr; chFlags bit 0 = EILAST, bit 1 = HALTED -/
@@ -262,23 +265,23 @@ def applyRAMP (inflate : Bytes → Option Bytes) (d : Bytes) (a : AState) : ASta
   a.withPage n (bytes.take 16384)
 
 def applyChunk (conv : HaltConv) (inflate : Bytes → Option Bytes) (mid : Nat) (a : AState) (c : Chunk) : AState :=
-  if isId c "Z80R" then applyZ80R conv c.data a
-  else if isId c "SPCR" then applySPCR mid c.data a
-  else if c.id = idAY then applyAY mid c.data a
-  else if isId c "AMXM" then applyMouse c.data a
-  else if isId c "RAMP" then applyRAMP inflate c.data a
+  if c.id = kZ80R then applyZ80R conv c.data a
+  else if c.id = kSPCR then applySPCR mid c.data a
+  else if c.id = kAY then applyAY mid c.data a
+  else if c.id = kAMXM then applyMouse c.data a
+  else if c.id = kRAMP then applyRAMP inflate c.data a
   else a
 
 /-- well-formedness of one chunk for a machine id (sizes as the format fixes them; unknown ids
 must not be case variants of known ones, because readers may fold case) -/
 def chunkOk (inflate : Bytes → Option Bytes) (mid : Nat) (c : Chunk) : Bool :=
-  if isId c "Z80R" then c.data.length == 37 && (c.data.getD 28 0).toNat < 3
-  else if isId c "SPCR" then c.data.length == 8 && (c.data.getD 0 0).toNat < 8
-  else if c.id = idAY then c.data.length == 18
-  else if isId c "AMXM" then c.data.length == 7 && (c.data.getD 0 0).toNat < 3
-  else if isId c "KEYB" then c.data.length == 5
-  else if isId c "CRTR" then 37 ≤ c.data.length
-  else if isId c "RAMP" then
+  if c.id = kZ80R then c.data.length == 37 && (c.data.getD 28 0).toNat < 3
+  else if c.id = kSPCR then c.data.length == 8 && (c.data.getD 0 0).toNat < 8
+  else if c.id = kAY then c.data.length == 18
+  else if c.id = kAMXM then c.data.length == 7 && (c.data.getD 0 0).toNat < 3
+  else if c.id = kKEYB then c.data.length == 5
+  else if c.id = kCRTR then 37 ≤ c.data.length
+  else if c.id = kRAMP then
     3 ≤ c.data.length &&
     (if mid < 2 then (c.data.getD 2 0).toNat ∈ [5, 2, 0] else (c.data.getD 2 0).toNat < 8) &&
     (if c.data.getD 0 0 &&& 1 != 0 then
@@ -286,7 +289,7 @@ def chunkOk (inflate : Bytes → Option Bytes) (mid : Nat) (c : Chunk) : Bool :=
         | some x => x.length == 16384
         | none => false
      else c.data.length == 3 + 16384)
-  else (c.id.map upperByte) ∉ [idZ80R, idSPCR, Snap.idAY, idKEYB, idAMXM, idRAMP, idCRTR]
+  else (c.id.map upperByte) ∉ knownIds
 
 /-- header: "ZXST", major, minor, machine id (0 = 16K, 1 = 48K, 2 = 128K), flags -/
 def szxMachine (f : Bytes) : Option Nat :=
@@ -304,7 +307,8 @@ def describeSzx (conv : HaltConv) (inflate : Bytes → Option Bytes) (f : Bytes)
     | none => none
     | some cs =>
       if cs.all (chunkOk inflate mid) then
-        some (cs.foldl (applyChunk conv inflate mid) { prev with model := kindOfMid mid, midInstr := false })
+        -- a loaded machine starts at an instruction boundary; the chunks then say the rest
+        some (cs.foldl (applyChunk conv inflate mid) { prev.atBoundary with model := kindOfMid mid })
       else none
 
 /-! ### SCR -/
@@ -335,7 +339,6 @@ def abs (m : Machine) : AState :=
     latch := m.latch, locked := m.kind == .k128 && !m.pagingEnabled,
     border := m.border, borderShown := m.borderDev,
     page := fun n => m.ram (absPage m.kind n),
-    shown := fun n => m.scr (absPage m.kind n),
     ayPresent := m.ayEnabled, ayRegs := m.ayRegs, aySel := m.aySel, ayAudible := m.ayChip,
     mouse := m.mouse }
 
